@@ -17,3 +17,9 @@ add("C09", "loop-carried dependence analysis of every map-range loop (header phi
 add("C19", "write-effect classification (schema/input roots forbidden) plus value-flow from schema fields to destination stores and a guard rule for Validate-mode destination writes",
     "Decides that no execution-reachable write targets schema- or input-owned memory, that no schema-owned reference reaches the destination uncopied, and that Validate writes the value only on default/catch paths. Deep-snapshot equality at run time is not decided; level 'other'.",
     "DESIGN.md section 4, C19")
+add("C11", "exhaustive join of a writer table (Test/issue literals, codes, param keys, schema types; from SSA) with a reader table (LangMap literals; from the syntax tree); must-store and control-dependence rules for issue construction and formatter precedence",
+    "Decides the catalogue clause completely (every built-in test x schema type x shipped language has a non-empty template whose placeholders the producing test fills), that single-parameter tests use their code as key, that issue constructors fill every field from the node's context, and the formatter precedence chain structurally. Run-time formatter combinations and user language maps are not decided; level 'other'.",
+    "DESIGN.md section 4, C11")
+add("C18", "enumeration of numeric Convert instructions in all code reachable from the numeric coercers; lossiness from types.Sizes; dominating range-guard proof in exact rational arithmetic (NaN-aware) or integer round-trip; strconv error discipline; thorough repeats under GOARCH=386",
+    "Decides that every lossy numeric conversion on a coercion path is range-guarded so that an out-of-range input becomes a coerce error, never another number. strconv's own parsing and custom coercers are trusted; level 'other'.",
+    "DESIGN.md section 4, C18")
